@@ -325,6 +325,7 @@ ROBUST = {
     'alias_param_named_like_type': '#[typeshare]\npub type A<T> = Vec<T>;\n#[typeshare]\npub type T<A> = Vec<A>;\n',
     'bare_use': 'use krate;\nuse other::Thing;\n#[typeshare]\npub struct S { pub a: u32 }\n',
 }
+ROBUST_MUST_DEFINE = {'const_item': ['K']}
 ROBUST_LANGS = ['typescript', 'kotlin', 'swift', 'python', 'go', 'scala', 'scala-nopackage', 'typescript-folder', 'kotlin-folder']
 
 
@@ -353,6 +354,13 @@ def robust_case(exe, name, lang):
             return 'the tool panicked / aborted (rc=%s): %s' % (rc, out.strip()[-200:])
         if rc != 0 and not out.strip():
             return 'non-zero exit without any diagnostic'
+        if rc == 0 and name in ROBUST_MUST_DEFINE:
+            # C03: an annotated item that cannot be generated must be reported, not silently left out
+            outp = os.path.join(top, 'outdir') if lang.endswith('-folder') else os.path.join(top, 'out.txt')
+            text = ''.join(open(os.path.join(b, f)).read() for b, _, fs in os.walk(outp) for f in fs) if os.path.isdir(outp) else (open(outp).read() if os.path.exists(outp) else '')
+            for item in ROBUST_MUST_DEFINE[name]:
+                if item not in text:
+                    return 'the run succeeded but the annotated item `%s` is missing from the output (silently omitted)' % item
         return None
     finally:
         shutil.rmtree(top, ignore_errors=True)
